@@ -60,12 +60,14 @@ func (P *residuePoint) Set(P2 kyber.Point) kyber.Point {
 		panic(ErrTypeCast)
 	}
 	P.g = p2Residue.g
-	P.Int = p2Residue.Int
+	P.Int.Set(&p2Residue.Int) // deep copy: a struct copy of big.Int would share the limb array
 	return P
 }
 
 func (P *residuePoint) Clone() kyber.Point {
-	return &residuePoint{g: P.g, Int: P.Int}
+	np := &residuePoint{g: P.g}
+	np.Int.Set(&P.Int)
+	return np
 }
 
 func (P *residuePoint) Valid() bool {
